@@ -327,6 +327,14 @@ class EnvHandle(object):
             out[s["name"]] = info
         return out
 
+    def histories(self):
+        """Sizes and latest keys of the histories the state and its features keep."""
+        st = self.state
+        out = {"state": [len(st.history), max(st.history) if st.history else None]}
+        for f in (st.features or []):
+            out[f.name] = [len(f.history), max(f.history) if f.history else None]
+        return out
+
     def nlv_default(self):
         """Valuation with the raising default: ('value', x) or ('raised', type)."""
         try:
@@ -459,7 +467,7 @@ class EpiSim(object):
         self.wrap_rebalance(h)
         hq, hm = h.holdings()
         rec.update({"obs": canon(obs) if not isinstance(obs, IState) else "state", "now": h.env.now(), "clock": AbstractContract.now,
-                    "done": bool(h.env._done), "books": h.books(), "hold": hq, "nlv": h.nlv(),
+                    "done": bool(h.env._done), "books": h.books(), "hold": hq, "nlv": h.nlv(), "hist": h.histories(),
                     "end_seq": self.sink.next_seq()})
         h.episodes.append({"reset": rec, "steps": [], "failed": False})
         self.stats["episodes"] += 1
@@ -491,7 +499,7 @@ class EpiSim(object):
                     "info_keys": sorted(info.keys()) if isinstance(info, dict) else None,
                     "now": h.env.now(), "clock": AbstractContract.now, "hold": hq, "margins": hm, "nlv": h.nlv(),
                     "n_rec": len(h.env.broker.track_record), "books": h.books(), "env_done": bool(h.env._done),
-                    "nlv_default": h.nlv_default(), "chains": h.chains(),
+                    "nlv_default": h.nlv_default(), "chains": h.chains(), "hist": h.histories(),
                     "end_seq": self.sink.next_seq()})
         if isinstance(info, dict) and "_rebalancing" in info:
             rec["info_rebalancing_time"] = info["_rebalancing"].time
